@@ -161,4 +161,28 @@ theorem prox_05_stationary (x u : ℝ) (hx : 0 < x) (hu : 0 < u)
   field_simp
   linear_combination key + 16 * c ^ 3 * s * hss + (r * u - 4 * s * c * x) * hrr
 
+/-- block L0.5 (`prox_block_2_05`): every coordinate is shrunk, never enlarged or flipped -/
+theorem prox_block_2_05_shrinks {n : Nat} (x : Fin n → ℝ) (u : ℝ) (hu : 0 ≤ u) (i : Fin n) :
+    |prox_block_2_05 x u i| ≤ |x i| ∧ 0 ≤ prox_block_2_05 x u i * x i := by
+  unfold prox_block_2_05
+  show |prox_05 (norm2 x) u / norm2 x * x i| ≤ |x i| ∧ 0 ≤ prox_05 (norm2 x) u / norm2 x * x i * x i
+  obtain ⟨h1, h2⟩ := prox_05_shrinks (norm2 x) u hu
+  set nx := norm2 x with hnx
+  set q := prox_05 nx u with hq
+  have hr : |q / nx| ≤ 1 := by
+    by_cases h0 : nx = 0
+    · simp [h0]
+    · rw [abs_div]; exact div_le_one_of_le₀ h1 (abs_nonneg _)
+  have hs : 0 ≤ q / nx := by
+    by_cases h0 : nx = 0
+    · simp [h0]
+    · have : q / nx = (q * nx) / (nx * nx) := by field_simp
+      rw [this]; exact div_nonneg h2 (mul_self_nonneg _)
+  constructor
+  · rw [abs_mul]; calc |q / nx| * |x i| ≤ 1 * |x i| := by gcongr
+      _ = |x i| := one_mul _
+  · have : q / nx * x i * x i = (q / nx) * (x i * x i) := by ring
+    rw [this]; exact mul_nonneg hs (mul_self_nonneg _)
+
+
 end Skglm.Proofs
